@@ -12,6 +12,8 @@ pub fn register_odd() {
     register_postfix_op("@@", Arc::new(|v| Ok(v)));
     register_infix_op("\u{2260}", 111, InfixOpType::CALC, InfixOpAssociativity::LEFT, Arc::new(|a, _| Ok(a)));
     register_infix_op("a~", 111, InfixOpType::CALC, InfixOpAssociativity::LEFT, Arc::new(|a, _| Ok(a)));
+    register_infix_op(":=", 25, InfixOpType::CALC, InfixOpAssociativity::RIGHT, Arc::new(|a, _| Ok(a)));
+    register_infix_op("?:", 30, InfixOpType::CALC, InfixOpAssociativity::LEFT, Arc::new(|a, _| Ok(a)));
 }
 
 pub fn register_extended() {
@@ -159,7 +161,7 @@ const SYMS: &[&str] = &[
     "+", "-", "*", "/", "^", "%", "&", "!", "=", "?", ":", ">", "<", "|", "==", "!=", "<=", ">=", "&&", "||", "<<", ">>", "<<=", ">>=", "+=",
     "-=", "*=", "/=", "%=", "&=", "^=", "|=", "++", "--", "+++", "---", "=>", "<>", "**",
 ];
-const MULTI: &[char] = &['é', 'ß', '€', '中', '😀', '\u{10FFFF}', '\u{80}', '\u{7FF}', '\u{800}', '\u{FFFF}', '\u{10000}', '\u{A0}', '\u{2028}', '\u{B}', '\u{C}', '\u{85}', '\u{3000}', '\u{2003}', '\u{FEFF}', '\u{7F}', '\u{1}', '\u{1F}', '\u{80}'];
+const MULTI: &[char] = &['é', 'ß', '€', '中', '😀', '\u{10FFFF}', '\u{80}', '\u{7FF}', '\u{800}', '\u{FFFF}', '\u{10000}', '\u{A0}', '\u{2028}', '\u{B}', '\u{C}', '\u{85}', '\u{3000}', '\u{2003}', '\u{FEFF}', '\u{7F}', '\u{1}', '\u{1F}', '\u{80}', '\u{2020}', '\u{120}', '\u{10A}', '\u{2009}', '\u{200D}', '\u{10D}'];
 
 /// A random input biased towards the character classes the tokenizer distinguishes.
 pub fn random_input(rng: &mut impl Rng, max_chars: usize) -> String {
